@@ -13,10 +13,11 @@ Proof. exact replace_hits_userinfo. Qed.
 Theorem C50_escaped_userinfo_has_no_at : forall s, ~ In 64 (escape_up s).
 Proof. exact escape_up_no_at. Qed.
 
-(* for every string: the displayed form is the raw echo (no password found / URL rejected) or
+(* for every string: the displayed form is the string itself (no rest: prefix), the raw echo (no password found / URL rejected) or
    rest:<scheme>://<user>:***@<rest of the URL> — the password does not occur in the second form *)
 Theorem C50_strip_rest_shape : forall loc post o, strip_rest loc post = ROut o ->
-  o = firstn 5 loc ++ prepare (skipn 5 loc)
+  o = loc
+  \/ o = firstn 5 loc ++ prepare (skipn 5 loc)
   \/ exists pre u p po, post = Some po /\ locate (prepare (skipn 5 loc)) = UPw pre u p
                         /\ o = firstn 5 loc ++ pre ++ u ++ mask ++ po.
 Proof. exact strip_rest_shape. Qed.
@@ -49,7 +50,8 @@ Theorem C50_noninterference : forall sch un pw1 pw2 h r u p1 p2 post,
   = strip_rest (rest_scheme ++ 58 :: mkurl sch un pw2 h r) (Some post).
 Proof. exact noninterference. Qed.
 
-Theorem C50_no_panic_with_colon : forall loc post, In 58 loc -> strip_location loc post <> RPanic.
+(* location.StripPassword panics on no string at all (F-C50-1 fixed: "rest" without colon is echoed) *)
+Theorem C50_no_panic : forall loc post, strip_location loc post <> RPanic.
 Proof. exact strip_location_no_panic. Qed.
 
 Theorem C50_oracle_sound : forall c,
@@ -71,17 +73,12 @@ Theorem C50_model_twin_ok : forall sch un pw1 pw2 h r u p1 p2 post,
   twin_ok (mk l1 (Some post) (strip_rest l1 (Some post)) true (Some (l2, strip_rest l2 (Some post))) None) = true.
 Proof. exact model_twin_ok. Qed.
 
-(* F-C50-1 (genuine defect): the panic-freedom does NOT extend to strings without a colon: "rest" panics *)
-Theorem C50_no_panic_refuted : exists loc post, strip_location loc post = RPanic.
-Proof. exact no_panic_refuted. Qed.
-
 Print Assumptions C50_replace_hits_userinfo.
 Print Assumptions C50_escaped_userinfo_has_no_at.
 Print Assumptions C50_strip_rest_shape.
 Print Assumptions C50_parser_locates_password.
 Print Assumptions C50_displayed_form.
 Print Assumptions C50_noninterference.
-Print Assumptions C50_no_panic_with_colon.
+Print Assumptions C50_no_panic.
 Print Assumptions C50_oracle_sound.
 Print Assumptions C50_model_twin_ok.
-Print Assumptions C50_no_panic_refuted.
